@@ -76,6 +76,9 @@ func runRestart(param json.RawMessage, ctx *explore.Ctx, viols *[]xrun.Viol) str
 	_ = json.Unmarshal(param, &cfg)
 	res := restartworld.Run(cfg, ctx)
 	for _, v := range res.Viols {
+		if !loopworld.Judged(v.Sig, "c05") {
+			continue // judged by C09
+		}
 		*viols = append(*viols, xrun.Viol{Sig: v.Sig, Msg: v.Msg})
 	}
 	return res.Outcome
